@@ -138,7 +138,14 @@ public:
         return s;
     }
     // unique id for a function *including* its template arguments (USR does that)
-    std::string fnId(const FunctionDecl *FD) const { return usr(FD); }
+    std::string fnId(const FunctionDecl *FD) const {
+        std::string u = usr(FD);
+        // USRs of closure call operators inside a template instantiation collide: disambiguate by location
+        if (auto MD = dyn_cast_or_null<CXXMethodDecl>(FD))
+            if (MD->getParent()->isLambda())
+                u += "@lambda@" + std::to_string(lineOf(MD->getParent()->getLocation())) + ":" + std::to_string(colOf(MD->getParent()->getLocation()));
+        return u;
+    }
 
     std::string sig(const FunctionDecl *FD) const {
         std::string s = qname(FD) + "(";
